@@ -71,11 +71,11 @@ META["C17"] = dict(
 )
 
 META["C18"] = dict(
-    engine="codec",
+    engine="codec+net",
     design_ref="DESIGN.md 3/C18",
     technique="property-based differential testing: rapid-generated job sets run concurrently on 2..32 goroutines vs. their sequential result; thorough tier under the Go race detector with reports attributed by stack",
     level_text="Exploration: concurrent encode/decode jobs through every pooled path (auto-released writers, pooled writers that fail midway or are abandoned, owned writers failing then freed) must produce exactly the bytes they produce alone and read back correctly; the thorough tier rebuilds with -race and treats any report with a frame inside the module as a violation.",
-    level_note="Interleavings are sampled by the Go scheduler. mpx/rpc pools are covered by the net part of this check when built.",
+    level_note="Interleavings are sampled by the Go scheduler. The net part runs independent delivery scenarios (different windows) and RPC plans concurrently so that channel states, handlers and call states are recycled across connections, each held to its sequential oracle, plus server start/stop cycles; a data race is only seen if it occurs in an execution.",
 )
 
 META["C03"] = dict(
